@@ -44,7 +44,9 @@ DTypes == << I32b, TInt("Int32", Unset, Unset), TInt("UInt64", Unset, Unset), TI
              TFloat("Float64", 5, 11), TFloat("Float32", Unset, Unset), TFloat("Float64", Unset, Unset),
              Str13, TStr(Unset, Unset, "p1"), TStr(2, 3, "p1"), TBool, TRef("K"), TRef("V"), TRef("Ak"), TRef("A"),
              TTs("f1"), TNull(I32b), TNull(TRef("K")), TList(I32b, Unset, Unset), TRef("L"), TBytes(Unset, Unset),
-             TMap(I32b) >>
+             TMap(I32b),
+             \* floats bounded on one side only
+             TFloat("Float64", Unset, 11), TFloat("Float64", 5, Unset) >>
 Lits == {LInt(r) : r \in {3, 4, 6, 7, 8, 9, 10, 12, 13, 15, 16, 24, 25}} \cup
         {LFloat(r) : r \in {0, 1, 4, 5, 9, 11, 12, 16, 17}} \cup
         {LStr(n, f, p) : n \in {0, 1, 2, 3, 4}, f \in BOOLEAN, p \in BOOLEAN} \cup
